@@ -36,6 +36,9 @@ ALGOS = {
 
 
 def run(ctx: Ctx):
+    from .. import memo as _memo
+
+    ctx.section(_memo.check_memo_keys, ctx, ('algorithms.', 'qcircuit.'))
     an = fx.effects(ctx)
     for cname, spec in ALGOS.items():
         ci = ctx.repo.cls(cname)
